@@ -211,6 +211,9 @@ def run_path(path, env, cal=None):
         if e[0] == "gc" and t.w == "dead":
             steps.append("(weak-box-value w)")
     r = common.run_cases([{"id": 0, "steps": steps}], env=env, batch=1, timeout_ms=60000)[0]
+    if r["exit"] == "timeout":
+        # a hang of the subject repeats; a starved child on a loaded machine does not
+        r = common.run_cases([{"id": 0, "steps": steps}], env=env, batch=1, timeout_ms=60000)[0]
     if r["exit"] != "normal" or len(r["steps"]) != len(steps):
         lm = ""
         if r["steps"] and r["steps"][-1].get("s") == "panic":
@@ -455,7 +458,7 @@ def main(argv=None):
     n_iter = every * (120 if a.tier == "thorough" else 32)
     items = [(p, th, n_iter, every) for p in PATTERNS for th in (1, 2) if th == 1 or "set! gg" not in PATTERNS[p] and "set! kk" not in PATTERNS[p]]
     # the natural policy (no explicit collections): slot counts over an iteration ladder must stop growing (compaction after 10 growths)
-    ladder = [300000, 3000000, 30000000] if a.tier == "thorough" else []
+    ladder = [30000000, 60000000] if a.tier == "thorough" else []
     nat_patterns = ["box-cycle-2", "mixed-cycle-4", "acyclic-chain", "closure-cycle"]
     items += [(p, 1, n, 0) for p in nat_patterns for n in ladder]
     bres = common.pmap(work_bounded, items)
@@ -479,7 +482,7 @@ def main(argv=None):
         if len(ns) >= 2:
             (v1, c1), (v2, c2) = rungs[ns[-2]], rungs[ns[-1]]
             table["%s/natural" % pat] = {str(n_): rungs[n_] for n_ in ns}
-            if v2 > 2 * v1 or c2 > 2 * c1:
+            if v2 > v1 + 256 * 100 or c2 > c1 + 256 * 100:
                 rep.violation("bounded %s natural policy :: heap slots keep growing with the number of iterations" % pat, {"pattern": pat, "max_slots_per_N": {str(n_): rungs[n_] for n_ in ns}},
                               {"case": {"steps": bounded_program(pat, ns[-1], 1, 0)}, "env": None})
     n_units = 9000 if a.tier == "thorough" else 3000
